@@ -220,7 +220,15 @@ theorem C14_cleanup_partial (cfg : Cfg) (ops : List (Op κ)) (t : Task)
     intro k e
     have := (h.maps.own k t e).2
     rw [hentry] at this; cases this
-  refine ⟨C13.not_true_false (no (h.ours t)), ?_, C13.not_true_false (no (h.hctx t)), ?_, hentry, hown⟩
+  have hours : (run cfg ops).u.ours t = false := by
+    cases ho : (run cfg ops).u.ours t with
+    | false => rfl
+    | true =>
+      rcases h.ours t ho with a | a | a
+      · rw [hd] at a; cases a
+      · exact absurd a hnl
+      · rw [hl] at a; cases a
+  refine ⟨hours, ?_, C13.not_true_false (no (h.hctx t)), ?_, hentry, hown⟩
   · cases hc : (run cfg ops).cb t with
     | none => rfl
     | some l =>
@@ -293,8 +301,16 @@ theorem C14_quiescent_empty_partial (cfg : Cfg) (ops : List (Op κ))
     | some t =>
       have := (h.maps.own k t e).2
       rw [hentry t] at this; cases this
-  refine ⟨fun t => ⟨C13.not_true_false (no t (h.ours t)), ?_, C13.not_true_false (no t (h.hctx t)), hentry t, ?_⟩,
-          hown⟩
+  have hours : ∀ t, (run cfg ops).u.ours t = false := by
+    intro t
+    cases ho : (run cfg ops).u.ours t with
+    | false => rfl
+    | true =>
+      rcases h.ours t ho with a | a | a
+      · rcases hq t with e | e <;> (rw [e] at a; cases a)
+      · exact absurd a (hnl t)
+      · rw [hl t] at a; cases a
+  refine ⟨fun t => ⟨hours t, ?_, C13.not_true_false (no t (h.hctx t)), hentry t, ?_⟩, hown⟩
   · cases hc : (run cfg ops).cb t with
     | none => rfl
     | some l =>
@@ -393,30 +409,69 @@ theorem C14_regress_service_task_has_no_callback_entry :
     ((go current).errs = 0 ∧ (go current).cb 0 = some [(1, 10)]) := by
   decide
 
-/-! ### witnesses of what is still open -/
-
-/-- C14-F5 (open): `task.cancel(t)` of a task that was created but has not run its first segment raises `TypeError`
-(`our_tasks` is filled by `run_coro` itself), nothing is queued. -/
-theorem C14_cex_cancel_before_start_raises :
-    let s := run current [.create 0 true true, .start 0, .create 1 true true, (.cancel 0 (some 1) : Op Nat)]
-    s.errs = 1 ∧ s.u.reaperQ = [] ∧
-    (run current [.create 0 true true, .start 0, .create 1 true true, .start 1,
-                  (.cancel 0 (some 1) : Op Nat)]).u.reaperQ = [1] := by
+/-- C14-F5, fixed by /repo e8a0175.  Pre-fix: `task.cancel(t)` of a task that was created but has not run its first
+segment raised `TypeError` (`our_tasks` was filled by `run_coro` only) and nothing was queued.  Now the task is one of
+ours from `create_task` on: the cancel is queued and, once the task has run its first segment, delivered. -/
+theorem C14_regress_cancel_before_start_raises :
+    let ops : List (Op Nat) := [.create 0 true true, .start 0, .create 1 true true, .cancel 0 (some 1)]
+    ((run preFix ops).errs = 1 ∧ (run preFix ops).u.reaperQ = []) ∧
+    ((run current ops).errs = 0 ∧ (run current ops).u.reaperQ = [1] ∧
+     (run current (ops ++ [.reap])).u.reaperQ = [1] ∧
+     (run current (ops ++ [.start 1, .reap])).u.reaperQ = [] ∧
+     (run current (ops ++ [.start 1, .reap])).u.cancelReq 1 = true) := by
   decide
 
-/-- C14-F6 (open): **the one shared await.**  `C14_independent` says no life-cycle step of `a` changes `b`'s state –
-but the reaper `await`s every task it cancels, so while a cancelled task 0 is still inside a (sleeping) done-callback
-the reaper is busy and the cancellation that the unrelated task 1 has queued (here: `task.cancel()` of itself) is not
-delivered: `reap` is a no-op until task 0's `finally` is over. -/
-theorem C14_cex_reaper_serialises_cancellations :
+/-- **A task can be cancelled from the moment it exists** (the code as it is now): in any state, once `create_task`
+has made task `t`, `task.cancel(t)` by a running task raises nothing and puts `t` on the reaper queue. -/
+theorem C14_cancel_created_task (s : St κ) (a t : Task) (wc pre : Bool)
+    (hp : s.phase t = .none) (ha : active s a = true) (hne : a ≠ t) :
+    let s1 := step current s (.create t wc pre)
+    (step current s1 (.cancel a (some t))).errs = s.errs ∧
+    t ∈ (step current s1 (.cancel a (some t))).u.reaperQ := by
+  have hact : active (createStep current s t wc pre) a = true := by
+    unfold active at ha ⊢
+    unfold createStep
+    simp only [hp, ne_eq, not_true_eq_false, if_false, upd_other _ _ _ _ hne, current, if_true]
+    exact ha
+  simp only [step, cancelStep, hact, Bool.not_true, Bool.false_eq_true, if_false, Option.getD_some]
+  have hours : (createStep current s t wc pre).u.ours t = true := by
+    unfold createStep
+    simp [hp, current]
+  simp only [hours, Bool.not_true, Bool.false_eq_true, if_false, Option.isNone_some]
+  constructor
+  · unfold createStep; simp [hp]
+  · simp [C13.enqueue]
+
+/-- C14-F6, fixed by /repo 32185a9.  Pre-fix: **the one shared await** – the reaper awaited every task it cancelled, so
+while a cancelled task 0 was still inside a (sleeping) done-callback the reaper was busy and the cancellation that the
+unrelated task 1 had queued (`task.cancel()` of itself) was not delivered until task 0's `finally` was over.  Now the
+same `reap` delivers it at once. -/
+theorem C14_regress_reaper_serialises_cancellations :
     let pre : List (Op Nat) := [.create 0 true true, .start 0, .addCb 0 0 3 1, .create 2 true true, .start 2,
                                 .cancel 2 (some 0), .reap, .endBody 0 .cancelled, .cbBegin 0,
                                 .create 1 true true, .start 1, .cancel 1 none]
-    let s := run current (pre ++ [.reap])
-    let s' := run current (pre ++ [.cbEnd 0 .ok, .cleanup 0, .reap])
-    C13.busy s.u = true ∧ s.u.reaperQ = [1] ∧ s.u.cancelReq 1 = false ∧ s.inCb 0 = true ∧
-    s'.u.reaperQ = [] ∧ s'.u.cancelReq 1 = true := by
+    (C13.busy (run preFix (pre ++ [.reap])).u = true ∧ (run preFix (pre ++ [.reap])).u.reaperQ = [1] ∧
+     (run preFix (pre ++ [.reap])).u.cancelReq 1 = false ∧ (run preFix (pre ++ [.reap])).inCb 0 = true ∧
+     (run preFix (pre ++ [.cbEnd 0 .ok, .cleanup 0, .reap])).u.cancelReq 1 = true) ∧
+    ((run current (pre ++ [.reap])).u.reaperQ = [] ∧ (run current (pre ++ [.reap])).u.cancelReq 1 = true ∧
+     (run current (pre ++ [.reap])).inCb 0 = true) := by
   decide
+
+/-- **The reaper never waits** (the code as it is now): in any state, whatever any other task is doing, one reaper
+iteration takes the head of the queue and – if that task is still running – cancels it.  (The only command it leaves
+in place is one for a task whose very first segment is still on the ready queue ahead of it, `headUnstarted`.) -/
+theorem C14_reaper_never_blocks (s : St κ) (h : Task) (q : List Task)
+    (hq : s.u.reaperQ = h :: q) (hs : s.phase h ≠ .created) :
+    (step current s .reap).u.reaperQ = q ∧
+    (s.u.live h = true → (step current s .reap).u.cancelReq h = true) := by
+  have hu : headUnstarted s = false := by
+    unfold headUnstarted; rw [hq]
+    simp only [beq_eq_false_iff_ne, ne_eq]; exact hs
+  simp only [step, reapStep, hu, Bool.false_eq_true, if_false, C13.reapStepCfg, current, Bool.not_true,
+    Bool.false_and, hq]
+  constructor
+  · split <;> rfl
+  · intro hl; simp [hl]
 
 /-! non-vacuity -/
 example : let s := run current [.create 0 true true, .start 0, .storeCtx 0, .unique 0 7 false, .addCb 0 0 1 10,
